@@ -66,20 +66,17 @@ func c06Unit(depth, shard, nshards int) vh.Unit {
 			}
 			for _, endpoint := range vh.SignedEndpoints {
 				for _, kind := range c06Kinds {
-					for _, fresh := range []bool{false, true} {
+					// the identity the refused request names: a client, a host, a wallet known to the
+					// pool, or one it has never seen
+					victims := []*vh.Ident{cast.ByName["C1"], cast.ByName["H1"], vh.Identities()[7]}
+					if vh.IsWalletEndpoint(endpoint) {
+						victims = []*vh.Ident{cast.ByName["W1"], vh.Identities()[7]}
+					}
+					for _, victim := range victims {
 						if u.Expired() {
 							return
 						}
-						victim := cast.ByName["C1"]
-						if endpoint == "vipnode_host" {
-							victim = cast.ByName["H1"]
-						}
-						if vh.IsWalletEndpoint(endpoint) {
-							victim = cast.ByName["W1"]
-						}
-						if fresh {
-							victim = vh.Identities()[7]
-						}
+						fresh := victim == vh.Identities()[7]
 						attacker := cast.ByName["H3"]
 						pw := build()
 						now := vsched.Now().UnixNano()
@@ -122,7 +119,7 @@ func c06Unit(depth, shard, nshards int) vh.Unit {
 						u.R.Evaluations++
 						u.R.Transitions++
 						u.R.Traces++
-						u.Observe(fmt.Sprintf("%s %s fresh=%v refused=%v", endpoint, kind, fresh, vh.IsRefused(err)))
+						u.Observe(fmt.Sprintf("%s %s victim=%s refused=%v", endpoint, kind, victim.Name, vh.IsRefused(err)))
 						desc := fmt.Sprintf("history %v, %s refusal kind %q aimed at %s (fresh identity: %v)", hist, endpoint, kind, victim.Name, fresh)
 						if len(u.R.Samples) < 2 {
 							u.Sample(desc)
@@ -159,14 +156,19 @@ func c06Unit(depth, shard, nshards int) vh.Unit {
 						// differential oracle: what the pool does from here on is what it would have
 						// done had the refused request never arrived (a twin world with the same
 						// history, the same follow-up, but without the refused request)
+						// (fresh worlds: the follow-up above is itself a request that may re-establish
+						// what the refused one disturbed)
+						again := build()
 						twin := build()
-						if kind == "replayed" {
-							warm.Invoke(twin, vh.CtxWith(twin.Host("x").Service()))
+						for _, w := range []*vh.PoolWorld{again, twin} {
+							if kind == "replayed" {
+								warm.Invoke(w, vh.CtxWith(w.Host("x").Service()))
+							}
+							w.Host("attacker-conn")
 						}
-						twin.Host("attacker-conn")
-						next.Invoke(twin, vh.CtxWith(twin.Host("x").Service()))
+						call.Invoke(again, vh.CtxWith(again.Host("attacker-conn").Service()))
 						var got, want string
-						if p := vh.Recover(func() { got = c06Probe(pw, cast, now) }); p != "" {
+						if p := vh.Recover(func() { got = c06Probe(again, cast, now) }); p != "" {
 							u.Violate("c06/"+endpoint+"/panic/after-refusal", desc+": later request panicked: "+p, nil)
 							continue
 						}
@@ -203,6 +205,90 @@ func c06Probe(pw *vh.PoolWorld, cast *vh.Cast, now int64) string {
 	return b.String()
 }
 
+// a burst of refused requests leaves no trace either: refusals are not only idempotent one at a
+// time, they do not add up (no budget, counter, cache or table that the named identity pays for)
+func c06Burst(n int) vh.Unit {
+	name := fmt.Sprintf("refusal-burst/x%d", n)
+	cast := vh.StdCast()
+	return vh.Unit{Name: name, Run: func(u *vh.U) {
+		for _, endpoint := range vh.SignedEndpoints {
+			for _, kind := range c06Kinds[:4] { // (a replayed request needs an accepted one first: covered one at a time)
+				victims := []*vh.Ident{cast.ByName["C1"], cast.ByName["H1"]}
+				if vh.IsWalletEndpoint(endpoint) {
+					victims = []*vh.Ident{cast.ByName["W1"]}
+				}
+				for _, victim := range victims {
+					if u.Expired() {
+						return
+					}
+					vsched.ResetClock(0)
+					pw := vh.NewPoolWorld(vh.PoolConfig{Driver: vh.Memory})
+					for _, e := range c06Session {
+						vh.PoolEvent(pw, cast, e)
+					}
+					now := vsched.Now().UnixNano()
+					attacker := cast.ByName["H3"]
+					param := vh.DefaultParam(endpoint, cast.ByName["H1"].NodeID)
+					ctx := vh.CtxWith(pw.Host("attacker-conn").Service())
+					before := poolDigest(pw, cast) + nodeView(pw, victim)
+					notRefused := 0
+					for i := 0; i < n; i++ {
+						nonce := now + 1000 + int64(i)
+						var call vh.Call
+						switch kind {
+						case "badsig":
+							call = vh.NewCall(endpoint, victim, nonce, param)
+							call.Nonce += 1 << 20
+						case "otherkey":
+							call = vh.NewCall(endpoint, victim, nonce, param).Resign(attacker)
+						case "malformed":
+							call = vh.NewCall(endpoint, victim, nonce, param)
+							call.Sig = "AAAA"
+						case "stale":
+							call = vh.NewCall(endpoint, victim, now-int64(15*time.Minute)-1-int64(i), param)
+						}
+						var err error
+						if p := vh.Recover(func() { _, err = call.Invoke(pw, ctx) }); p != "" {
+							u.Violate("c06/"+endpoint+"/panic/burst", fmt.Sprintf("refused %s #%d (%s): panic: %s", endpoint, i, kind, p), nil)
+							break
+						}
+						if !vh.IsRefused(err) {
+							notRefused++
+						}
+						u.R.Transitions++
+					}
+					after := poolDigest(pw, cast) + nodeView(pw, victim)
+					u.R.Evaluations++
+					u.R.States++
+					u.R.Traces++
+					desc := fmt.Sprintf("%d refused %s requests (%s) naming %s in one instant", n, endpoint, kind, victim.Name)
+					if notRefused > 0 {
+						u.Violate("c06/"+endpoint+"/not-refused/"+kind, fmt.Sprintf("%s: %d were not refused", desc, notRefused), nil)
+						continue
+					}
+					if before != after {
+						u.Violate("c06/"+endpoint+"/refused-request-left-trace/"+kind, fmt.Sprintf("%s: state changed\n before %s\n after  %s", desc, before, after), nil)
+						continue
+					}
+					// the owner's own requests are served as if nothing had happened
+					var next vh.Call
+					if vh.IsWalletEndpoint(endpoint) {
+						next = vh.NewCall("pool_addNode", victim, now+500, "nosuchnode")
+					} else {
+						next = vh.NewCall("vipnode_update", victim, now+500, vh.DefaultParam("vipnode_update", cast.ByName["H1"].NodeID))
+					}
+					_, err := next.Invoke(pw, vh.CtxWith(pw.Host("x").Service()))
+					u.Observe(fmt.Sprintf("%s %s %s owner-refused=%v", endpoint, kind, victim.Name, vh.IsRefused(err)))
+					if vh.IsRefused(err) || (err != nil && !vh.IsWalletEndpoint(endpoint)) {
+						u.Violate("c06/"+endpoint+"/refused-requests-cost-the-owner/"+kind, fmt.Sprintf("%s: the owner's next legitimate %s failed: %v", desc, next.Endpoint, err), nil)
+					}
+				}
+			}
+		}
+		u.Sample(fmt.Sprintf("%d refused requests per (endpoint, kind, victim), then the owner's legitimate request", n))
+	}}
+}
+
 func nodeView(pw *vh.PoolWorld, id *vh.Ident) string {
 	return "|" + vh.StoreView(pw.Raw, []string{id.NodeID}, []string{id.Wallet, id.NodeID})
 }
@@ -224,6 +310,11 @@ func init() {
 			for s := 0; s < n; s++ {
 				us = append(us, c06Unit(depth, s, n))
 			}
+			burst := 150
+			if tier == "thorough" {
+				burst = 1500
+			}
+			us = append(us, c06Burst(burst))
 			return us
 		},
 	})
